@@ -481,4 +481,8 @@ func Run(r *vk.Run) {
 	}
 	close(ch)
 	wg.Wait()
+	for i := 0; i < r.N(12, 48); i++ {
+		i := i
+		r.Guard(map[string]any{"overlap_case": i}, func() { runOverlap(r, i) })
+	}
 }
